@@ -540,6 +540,117 @@ func gateCallersOf(p *pkg, callee string) []string {
 	return out
 }
 
+
+// the topic and channel arguments of the (first) CheckAuth call of a handler, identifiers
+// resolved through their := definition in the handler
+func gateCheckAuthArgs(p *pkg, name string) (string, string) {
+	fd := p.method("protocolV2", name)
+	if fd == nil {
+		return "?", "?"
+	}
+	defs := map[string]string{}
+	ast.Inspect(fd.Body, func(n ast.Node) bool {
+		as, ok := n.(*ast.AssignStmt)
+		if !ok || as.Tok != token.DEFINE || len(as.Lhs) != 1 || len(as.Rhs) != 1 {
+			return true
+		}
+		if id, ok := as.Lhs[0].(*ast.Ident); ok {
+			if _, dup := defs[id.Name]; !dup {
+				defs[id.Name] = gateSrc(p, as.Rhs[0])
+			}
+		}
+		return true
+	})
+	resolve := func(e ast.Expr) string {
+		if id, ok := e.(*ast.Ident); ok {
+			if d, ok := defs[id.Name]; ok {
+				return d
+			}
+		}
+		return gateSrc(p, e)
+	}
+	t, c := "?", "?"
+	done := false
+	ast.Inspect(fd.Body, func(n ast.Node) bool {
+		call, ok := n.(*ast.CallExpr)
+		if !ok || done || gateCallName(call) != "CheckAuth" || len(call.Args) != 4 {
+			return true
+		}
+		t, c = resolve(call.Args[2]), resolve(call.Args[3])
+		done = true
+		return true
+	})
+	return t, c
+}
+
+// internal/auth: the shapes the grant model is written against
+func gateAuthShapes(repo string, sb *strings.Builder) error {
+	p, err := loadPkg(repo, "internal/auth")
+	if err != nil {
+		return err
+	}
+	// State.IsExpired: the single returned expression
+	exp := "?"
+	if fd := p.method("State", "IsExpired"); fd != nil && len(fd.Body.List) == 1 {
+		if rs, ok := fd.Body.List[0].(*ast.ReturnStmt); ok && len(rs.Results) == 1 {
+			exp = gateSrc(p, rs.Results[0])
+		}
+	}
+	fmt.Fprintf(sb, "Definition isexpired_expr : string := %s.\n", gateCoqStr(exp))
+	// Authorization.IsAllowed: first statement  if channel != "" { !HasPermission(A) -> false } else { !HasPermission(B) -> false }
+	cond, pa, pb := "?", "?", "?"
+	if fd := p.method("Authorization", "IsAllowed"); fd != nil && len(fd.Body.List) > 0 {
+		if is, ok := fd.Body.List[0].(*ast.IfStmt); ok {
+			cond = gateSrc(p, is.Cond)
+			lit := func(b ast.Node) string {
+				out := "?"
+				ast.Inspect(b, func(n ast.Node) bool {
+					call, ok := n.(*ast.CallExpr)
+					if ok && gateCallName(call) == "HasPermission" && len(call.Args) == 1 {
+						if l, ok := call.Args[0].(*ast.BasicLit); ok && l.Kind == token.STRING {
+							if s, err := strconv.Unquote(l.Value); err == nil {
+								out = s
+							}
+						}
+					}
+					return true
+				})
+				return out
+			}
+			pa = lit(is.Body)
+			if is.Else != nil {
+				pb = lit(is.Else)
+			}
+		}
+	}
+	fmt.Fprintf(sb, "Definition isallowed_branch : string * string * string := (%s, %s, %s).\n", gateCoqStr(cond), gateCoqStr(pa), gateCoqStr(pb))
+	// QueryAuthd: the permissions accepted by the validation switch, and the TTL guard
+	var perms []string
+	ttl := "?"
+	if fd := p.funcDecl("QueryAuthd"); fd != nil {
+		ast.Inspect(fd.Body, func(n ast.Node) bool {
+			switch x := n.(type) {
+			case *ast.CaseClause:
+				for _, e := range x.List {
+					if l, ok := e.(*ast.BasicLit); ok && l.Kind == token.STRING {
+						if s, err := strconv.Unquote(l.Value); err == nil {
+							perms = append(perms, gateCoqStr(s))
+						}
+					}
+				}
+			case *ast.IfStmt:
+				if be, ok := x.Cond.(*ast.BinaryExpr); ok && gateEndsWithSel(be.X, "TTL") {
+					ttl = gateSrc(p, x.Cond)
+				}
+			}
+			return true
+		})
+	}
+	fmt.Fprintf(sb, "Definition queryauthd_known_perms : list string := [%s].\n", strings.Join(perms, "; "))
+	fmt.Fprintf(sb, "Definition queryauthd_ttl_refused : string := %s.\n", gateCoqStr(ttl))
+	return nil
+}
+
 func genGate(repo string) (string, error) {
 	p, err := loadPkg(repo, "nsqd")
 	if err != nil {
@@ -571,6 +682,17 @@ func genGate(repo string) (string, error) {
 	}
 	sb.WriteString("\n")
 
+	sb.WriteString("(* handler, topic argument, channel argument of its CheckAuth call (identifiers resolved) *)\nDefinition checkauth_args : list (string * string * string) := [\n")
+	for i, h := range []string{"SUB", "PUB", "MPUB", "DPUB"} {
+		t, c := gateCheckAuthArgs(p, h)
+		sep := ";"
+		if i == 3 {
+			sep = ""
+		}
+		fmt.Fprintf(&sb, "  (%s, %s, %s)%s\n", gateCoqStr(h), gateCoqStr(t), gateCoqStr(c), sep)
+	}
+	sb.WriteString("].\n\n")
+
 	ca := p.method("protocolV2", "CheckAuth")
 	if ca == nil {
 		return "", fmt.Errorf("protocolV2.CheckAuth not found")
@@ -594,5 +716,9 @@ func genGate(repo string) (string, error) {
 	fmt.Fprintf(&sb, "(* NSQD.Main: newHTTPServer(n, tlsEnabled, tlsRequired) per listener *)\nDefinition http_wirings : list http_wiring := [\n  %s\n].\n", strings.Join(ws, ";\n  "))
 	fmt.Fprintf(&sb, "Definition http_ctor_stores_params : bool := %v.\n", gateCtorOK(p))
 	fmt.Fprintf(&sb, "Definition servehttp_guard : guard_shape := %s.\n", gateServeGuard(p))
+	sb.WriteString("\n(* internal/auth/authorizations.go *)\n")
+	if err := gateAuthShapes(repo, &sb); err != nil {
+		return "", err
+	}
 	return sb.String(), nil
 }
